@@ -57,7 +57,9 @@ impl ProxySlots {
     /// characters.
     ///
     /// The string must meet the below likelihood criteria as well as have its
-    /// MSB be non-zero.
+    /// MSB be non-zero, and must not end in a whole word of `NUL` bytes: text
+    /// is only ever padded to the end of its last word, so that shape is
+    /// instead a key hashed together with slot zero.
     ///
     /// # Likelihood
     ///
@@ -73,8 +75,12 @@ impl ProxySlots {
         if let Some(first) = words.first() {
             let msb_non_zero =
                 matches!(first.bytes_be().first(), Some(first_byte) if first_byte != &0);
+            let last_word_non_zero =
+                matches!(words.last(), Some(last) if last.bytes_be().iter().any(|b| b != &0));
             let stripped = Self::strip_trailing_nuls(words);
-            stripped.iter().all(|byte| byte > &0x1f && byte < &0x7f) && msb_non_zero
+            stripped.iter().all(|byte| byte > &0x1f && byte < &0x7f)
+                && msb_non_zero
+                && last_word_non_zero
         } else {
             false
         }
